@@ -30,7 +30,7 @@ man = {
     "version": 1,
     "setup_cmd": "tools/build.sh",
     "hooks": {"guard": "UMAP_VERIF", "enable": "no source hooks are used: every observation point is a module-level function or public attribute (guard variable is unused)",
-              "baseline_off_cmd": "cd /repo && /venv/bin/python -m pytest -ra -q -p no:cacheprovider --timeout=900 --continue-on-collection-errors umap/tests",
+              "baseline_off_cmd": "cd /repo && /venv/bin/python -m pytest -ra -q -p no:cacheprovider --timeout=900 --continue-on-collection-errors",
               "source_commits": [], "add_only": True},
     "engines": [{"name": "coq-model+correspondence", "path": "/verif/coq + /verif/harness",
                  "serves_properties": sorted(CLAIMED),
